@@ -1,0 +1,9 @@
+//go:build verif
+
+package bot
+
+// VerifAuthDigest exposes the client-side session hash to the verification
+// monitors (build tag "verif" only; never compiled into normal builds).
+func VerifAuthDigest(serverID string, sharedSecret, publicKey []byte) string {
+	return authDigest(serverID, append([]byte{}, sharedSecret...), publicKey)
+}
